@@ -413,6 +413,32 @@ Lemma relay_commit_complete o height l :
   snd (upd o height) = Some l -> snd (relay_commit o height) = Some (lb_header l, lb_commit l).
 Proof. unfold relay_commit. destruct (upd o height) as [c ol]; cbn; intros ->; reflexivity. Qed.
 
+(* the light block Commit / Validators answer with is one the oracle returned: the verified block
+   of the requested height, or - for "latest" - the block Update returned, or (repair F80) the
+   latest trusted block when Update has nothing newer *)
+Lemma upd_sound o height l :
+  snd (upd o height) = Some l ->
+  (exists h, height = Some h /\ o_verify o h = Some l) \/
+  (height = None /\ (o_update o = UpdBlock l \/ (o_update o = UpdNone /\ o_trusted o 0 = Some l))).
+Proof.
+  unfold upd. destruct height as [h|]; cbn [snd]; intro E; [left; eauto |].
+  right; split; [reflexivity |].
+  destruct (o_update o) as [| | l']; cbn [snd] in E; [discriminate | right; auto | left; congruence].
+Qed.
+
+(* repair F80, completeness: when the light client has no newer block (Update gives neither an
+   error nor a block) the latest commit and the first page of the latest validator set are
+   answered from the latest trusted light block *)
+Lemma latest_without_newer_block o l :
+  o_update o = UpdNone -> o_trusted o 0 = Some l ->
+  snd (relay_commit o None) = Some (lb_header l, lb_commit l) /\
+  forall pp, exists vs,
+    snd (relay_validators o None None pp) = Some (h_height (lb_header l), vs, Z.of_nat (length (lb_vals l))).
+Proof.
+  intros Eu Et. unfold relay_commit, relay_validators, upd. rewrite Eu, Et. cbn [snd validate_page].
+  split; [reflexivity |]. intro pp. eexists; reflexivity.
+Qed.
+
 Lemma per_page_bounds pp : 1 <= validate_per_page pp <= lightrpc_max_per_page.
 Proof.
   unfold validate_per_page, lightrpc_default_per_page, lightrpc_max_per_page.
